@@ -22,7 +22,10 @@ func c05World(r *rand.Rand) (files map[string]string, element, food string, dept
 	names := gen.Names(r, nrec+8, gen.NameOpts{Slash: true, MaxLen: 6})
 	recipes, basics, unknown := names[:nrec], names[nrec:nrec+4], names[nrec+4:]
 	vals := []string{"1", "2", "1", "0.5"}
-	if r.Intn(2) == 0 {
+	if r.Intn(6) == 0 {
+		// not-a-number and infinities are accepted by the parser: reports must still be deterministic
+		vals = []string{"nan", "1", "2", "inf", "-inf", "0", "3", "1", "NaN", "2"}
+	} else if r.Intn(2) == 0 {
 		// values whose sums depend on the order of the additions (float addition is not associative)
 		vals = []string{"0.1", "1", "-1.1", "0.2", "0.3", "-0.3", "0.001", "0.006", "0.008", "1e16", "-1e16", "1", "0.7", "-0.7"}
 	}
@@ -35,7 +38,7 @@ func c05World(r *rand.Rand) (files map[string]string, element, food string, dept
 		rec := gen.Recipe{Name: rn}
 		for _, b := range basics {
 			if r.Intn(3) > 0 {
-				rec.Ents = append(rec.Ents, gen.Ent{Name: b, Val: gen.N(vals[r.Intn(len(vals))])})
+				rec.Ents = append(rec.Ents, gen.Ent{Name: b, Val: c05Val(vals[r.Intn(len(vals))])})
 			}
 		}
 		book = append(book, rec)
@@ -61,7 +64,7 @@ func c05World(r *rand.Rand) (files map[string]string, element, food string, dept
 		}
 		pool = append(pool, "ch1", "ch2")
 		for j := 0; j < 3+r.Intn(8); j++ {
-			day.Ents = append(day.Ents, gen.Ent{Name: pool[r.Intn(len(pool))], Val: gen.N(vals[r.Intn(len(vals))])})
+			day.Ents = append(day.Ents, gen.Ent{Name: pool[r.Intn(len(pool))], Val: c05Val(vals[r.Intn(len(vals))])})
 		}
 		// all unknown foods at least once: >= 3 unresolved names
 		if i == 0 {
